@@ -163,7 +163,7 @@ def sizesOf (h : Hdr) (w : W) (plan : Plan) (udpMin : Nat) : Except Err Out :=
 
 def cmpDatagram (i : Nat) (h : Hdr) (w : W) (exactFrames : Bool) (plan : Plan) (out : Out) (d : Dgram) (v : View) : List String :=
   -- sizes from the model's `assemble`; the payload bytes themselves are not predicted (C09), only their layout
-  let fill := exactFill plan h.len w.payloadLen
+  let fill := innerPad plan h.len h.pnLen w.payloadLen
   let hb := out.plain.take h.len
   let chk (name : String) (ok : Bool) (detail : String) : List String := if ok then [] else [s!"d{i}.{name}:{detail}"]
   chk "header" (d.plain.take hb.length == hb) s!"exp={hb.length}B" ++
@@ -360,10 +360,14 @@ def step (st : St) (op impl : String) : St × StepOut :=
     let views : Array (Option View) := im.dgrams.map fun d =>
       if d.status == "ok" ∨ d.status == "pnmiss" then observe d.plain d.rawLen else none
     -- ---------------- model
-    let pred := if spec.builder.isFlight then predictFlight c s im views maxSize
+    let rejected := dialRejects spec
+    let pred : Pred := if rejected then { err := "E:pnfit", tags := ["err:E:pnfit"] }
+                else if spec.builder.isFlight then predictFlight c s im views maxSize
                 else predictSeq c s im views maxSize 0 0 im.L {}
     let mut mism := pred.mism
-    if im.max ≠ maxSize then mism := mism ++ [s!"max:exp={maxSize} got={im.max}"]
+    -- a rejected dial creates no connection (the driver then reports max=-1)
+    if !rejected ∧ im.max ≠ maxSize then mism := mism ++ [s!"max:exp={maxSize} got={im.max}"]
+    if rejected ∧ im.n ≠ 0 then mism := mism ++ [s!"n:exp=0 got={im.n} (dial must be rejected before anything is sent)"]
     let errOK :=
       if pred.err ≠ "" then im.err == pred.err || (pred.err == "E:other" && im.err.startsWith "E:other")
       -- against the live server the dial goes on after the first flight (handshake, or PTO retransmissions when
@@ -380,17 +384,25 @@ def step (st : St) (op impl : String) : St × StepOut :=
     -- ---------------- monitors (ghost: the spec of the op + the scripted stream only)
     let mut fails : List (String × String × String) := []
     let mut st := st
-    let judged := if pred.err ≠ "" then 0 else if im.err.startsWith "E:" then min pred.n im.dgrams.size else im.dgrams.size
+    -- monitors judge what the implementation emitted; when the model expects the dial to be refused for its packet
+    -- number but datagrams went out, they are judged all the same (the flight cannot be opened)
+    let judged := if pred.err == "E:pnfit" then (if im.err == "E:pnfit" then 0 else im.dgrams.size)
+      else if pred.err ≠ "" then 0 else if im.err.startsWith "E:" then min pred.n im.dgrams.size else im.dgrams.size
     let mut largest : Int := 0        -- a server's opener starts at 0 (quic-go) and tracks the largest opened
     let mut prevMinOff : Option Nat := none
     let mut prevPlanCrypto : Nat := 0
-    let mut pnBroken := false         -- an earlier packet of the flight could not be opened because of its packet number
+    -- a dial may be refused for its packet number only when that number really cannot be conveyed
+    if im.err == "E:pnfit" then
+      let l := intendedPnLen spec 0
+      if !(1 ≤ l ∧ l ≤ 4 ∧ intendedFirstPN spec ≥ 256 ^ l) then
+        fails := fails ++ [("decryptable", "-", s!"dial rejected although first packet number {intendedFirstPN spec} fits {l} byte(s)")]
+      if im.n ≠ 0 then
+        fails := fails ++ [("decryptable", "-", s!"dial rejected for its packet number after {im.n} datagram(s) were sent")]
     for i in [0:judged] do
       let d := im.dgrams[i]!
       match views[i]! with
       | none =>
-        let cls := if d.status == "short" then "no_header_protection_sample" else "-"
-        fails := fails ++ [("decryptable", cls, s!"datagram {i}: status {d.status}")]
+        fails := fails ++ [("decryptable", "-", s!"datagram {i}: status {d.status}")]
       | some v =>
         let plan := intendedPlan spec i
         if !headerShapeOK spec v then
@@ -398,9 +410,7 @@ def step (st : St) (op impl : String) : St × StepOut :=
         if !pnOK spec i v then
           fails := fails ++ [("pn_sequence", "-", s!"datagram {i}: wire pn {v.pn} ({v.pnLen} bytes), expected {intendedPN spec i}")]
         if !pnLenOK spec i v then
-          -- listed finding: the per-packet length list is indexed relative to the raw InitPacketNumber
-          let cls := if spec.initPN > 4611686018427387903 ∧ spec.pnLens.length > 1 then "pnlen_index_base_not_clamped" else "-"
-          fails := fails ++ [("pn_len_as_specified", cls, s!"datagram {i}: pnLen {v.pnLen}, specified {intendedPnLen spec i}")]
+          fails := fails ++ [("pn_len_as_specified", "-", s!"datagram {i}: pnLen {v.pnLen}, specified {intendedPnLen spec i}")]
         if !tokenOK spec s im.tokOff v then
           fails := fails ++ [("token_as_specified", "-", s!"datagram {i}: token {fmtBytes v.token}")]
         if i == 0 then
@@ -413,9 +423,7 @@ def step (st : St) (op impl : String) : St × StepOut :=
             st := { st with tails := (tail, drawn) :: st.tails }
         let sv := sizesOK spec i v d.tz
         if !sv.ok then
-          -- listed finding: on the pass-through path the plan index never advances
-          let cls := if spec.builder.passThrough ∧ i > 0 ∧ intendedPlan spec i != intendedPlan spec 0 then "plan_index_stuck_on_passthrough" else "-"
-          fails := fails ++ [("sizes_as_specified", cls, s!"datagram {i}: {sv.why}")]
+          fails := fails ++ [("sizes_as_specified", "-", s!"datagram {i}: {sv.why}")]
         match v.frames with
         | none => fails := fails ++ [("frame_counts_within_bounds", "-", s!"datagram {i}: payload is not a PADDING/PING/CRYPTO sequence")]
         | some fs =>
@@ -426,13 +434,11 @@ def step (st : St) (op impl : String) : St × StepOut :=
             match prevMinOff, minCryptoOffset fs with
             | some po, some mo =>
               if prevPlanCrypto > 0 ∧ mo ≠ po + prevPlanCrypto then
-                let cls := if spec.builder.passThrough ∧ i > 1 then "plan_index_stuck_on_passthrough" else "-"
-                fails := fails ++ [("crypto_split_offsets", cls, s!"datagram {i}: lowest CRYPTO offset {mo}, previous {po} + CryptoLength {prevPlanCrypto}")]
+                fails := fails ++ [("crypto_split_offsets", "-", s!"datagram {i}: lowest CRYPTO offset {mo}, previous {po} + CryptoLength {prevPlanCrypto}")]
             | _, _ => pure ()
             -- the last datagram of the stream may carry less than CryptoLength; every other one exactly it
             if plan.cryptoLength > 0 ∧ i + 1 < judged ∧ cryptoBytes fs ≠ plan.cryptoLength ∧ plan.cryptoLength + 64 < maxSize - v.headerLen then
-              let cls := if spec.builder.passThrough ∧ i > 0 then "plan_index_stuck_on_passthrough" else "-"
-              fails := fails ++ [("crypto_split_offsets", cls, s!"datagram {i}: {cryptoBytes fs} CRYPTO bytes, CryptoLength {plan.cryptoLength}")]
+              fails := fails ++ [("crypto_split_offsets", "-", s!"datagram {i}: {cryptoBytes fs} CRYPTO bytes, CryptoLength {plan.cryptoLength}")]
             prevMinOff := minCryptoOffset fs
             prevPlanCrypto := if cryptoBytes fs == plan.cryptoLength then plan.cryptoLength else 0
           -- none exceeds the connection's current maximum packet size (unless the spec asked for that size)
@@ -456,12 +462,9 @@ def step (st : St) (op impl : String) : St × StepOut :=
         -- decryptable: the independent opener, and the live server when there is one
         let fullPN := intendedPN spec i
         if d.status ≠ "ok" then
-          let unrep := decodePN v.pnLen largest v.pn ≠ fullPN
-          let cls := if unrep ∨ pnBroken then "packet_number_not_representable" else "-"
-          if unrep then pnBroken := true
-          fails := fails ++ [("decryptable", cls, s!"datagram {i}: opener status {d.status}, pn {fullPN} sent in {v.pnLen} bytes")]
+          fails := fails ++ [("decryptable", "-", s!"datagram {i}: opener status {d.status}, pn {fullPN} sent in {v.pnLen} bytes")]
         else if c.live ∧ im.hasSrv ∧ !(im.srv.contains (fullPN : Int)) then
-          let cls := if v.dcidLen < 8 then "dcid_shorter_than_8" else if pnBroken then "packet_number_not_representable" else "-"
+          let cls := if v.dcidLen < 8 then "dcid_shorter_than_8" else "-"
           fails := fails ++ [("decryptable", cls, s!"datagram {i}: server did not process Initial pn {fullPN} (received {im.srv})")]
         if d.status == "ok" then largest := max largest fullPN
     -- ---------------- tags
